@@ -13,6 +13,7 @@ import (
 	"github.com/NethermindEth/juno/consensus/types"
 	"github.com/NethermindEth/juno/consensus/types/wal"
 	kvdb "github.com/NethermindEth/juno/db"
+	"github.com/NethermindEth/juno/utils/verifhook"
 	"github.com/cockroachdb/pebble/v2"
 	"github.com/cockroachdb/pebble/v2/vfs"
 	pebblewal "github.com/cockroachdb/pebble/v2/wal"
@@ -156,6 +157,7 @@ func (s *tendermintWALStore[V, H, A]) flushLocked() error {
 	}
 	recordCount := uint32(len(s.pendingRecords))
 	appendResult, err := s.wal.appendSync(encodedBatch)
+	verifhook.Point("walstore:flush:after-append-sync")
 	const maxReusableEncodedBatchCap = 512 << 10 // Sized for current mainnet encoded-batch workloads.
 	if cap(encodedBatch) <= maxReusableEncodedBatchCap {
 		s.encodedBatch = encodedBatch[:0]
@@ -213,7 +215,9 @@ func (s *tendermintWALStore[V, H, A]) removeObsoleteWALFiles(
 
 	// Future optimisation: run cleanup in a background worker, piggyback prune
 	// durability on the next WAL flush instead of the driver's per-height Flush.
+	verifhook.Point("walstore:cleanup:watermark-written")
 	rotateErr := s.wal.rotateAfterSynced()
+	verifhook.Point("walstore:cleanup:rotated")
 	cleanupErr := s.cleanupObsoleteWALs()
 	if rotateErr == nil && cleanupErr == nil {
 		s.pruneRecordsSinceCleanup = 0
@@ -241,6 +245,7 @@ func (s *tendermintWALStore[V, H, A]) cleanupObsoleteWALs() error {
 		if err := log.FS.Remove(log.Path); err != nil && !errors.Is(err, os.ErrNotExist) {
 			return fmt.Errorf("cleanupObsoleteWALs: remove obsolete WAL %s: %w", log.Path, err)
 		}
+		verifhook.Point("walstore:cleanup:removed-one")
 	}
 	return nil
 }
